@@ -97,6 +97,8 @@ def run(pid, pc, tier, seed, replay):
         "build_panics": stats.get("build_panic", 0),
         "class_tables_enumerated_exhaustively": stats.get("class_tables_enumerated", 0),
         "spec_verdicts_ok": res["spec_ok"],
+        "inconclusive": res["inconclusive"],
+        "state_pairs_checked_by_closedCheck": res["pairs_total"],
         "model_vs_impl_disagreements": len(res["mismatches"]),
         "impl_vs_spec_failures": len(res["spec_fail"]),
         "samples": stats.get("samples", [])[:3] or ["(no sample)"],
